@@ -1,6 +1,7 @@
 package gqlerrors
 
 import (
+	"errors"
 	"strings"
 
 	"github.com/samber/lo"
@@ -70,6 +71,10 @@ func FormatError(err error) ErrorList {
 		}
 		return list
 	case *Error:
+		// a service can answer with "errors": [null]: still a failure, reported as an error object
+		if e == nil {
+			return ErrorList{NewError(UndefinedError, errors.New("null entry in the list of errors"))}
+		}
 		return ErrorList{e}
 	case *gqlerror.Error:
 		var locations []Location
